@@ -320,6 +320,113 @@ Proof.
 Qed.
 
 (* ------------------------------------------------------------------------------------------- *)
+(* regexes without the line-break character (for the insertion of a blank line) *)
+
+Fixpoint nlfreeb (r : re) : bool :=
+  match r with
+  | RNone | REps => true
+  | RSet neg rs => negb (set_mem neg rs 10%N)
+  | RCat a b | RAlt a b => nlfreeb a && nlfreeb b
+  | RStar a => nlfreeb a
+  end.
+
+Lemma nlfree_cat a b : nlfreeb a = true -> nlfreeb b = true -> nlfreeb (cat a b) = true.
+Proof. intros Ha Hb. destruct a, b; cbn [cat nlfreeb] in *; try reflexivity; try assumption; rewrite ?Ha, ?Hb; reflexivity. Qed.
+
+Lemma nlfree_alt a b : nlfreeb a = true -> nlfreeb b = true -> nlfreeb (alt a b) = true.
+Proof. intros Ha Hb. destruct a, b; cbn [alt nlfreeb] in *; try reflexivity; try assumption; rewrite ?Ha, ?Hb; reflexivity. Qed.
+
+Lemma nlfree_deriv c r : nlfreeb r = true -> nlfreeb (deriv c r) = true.
+Proof.
+  induction r as [| |neg rs|a IHa b IHb|a IHa b IHb|a IHa]; intros H; cbn [deriv nlfreeb] in *; try reflexivity.
+  - destruct (set_mem neg rs c); reflexivity.
+  - apply andb_prop in H. destruct H as [Ha Hb].
+    destruct (nullable a); [apply nlfree_alt|]; try (apply nlfree_cat; [apply IHa; exact Ha|exact Hb]). apply IHb. exact Hb.
+  - apply andb_prop in H. destruct H as [Ha Hb]. apply nlfree_alt; [apply IHa|apply IHb]; assumption.
+  - apply nlfree_cat; [apply IHa; exact H|cbn [nlfreeb]; exact H].
+Qed.
+
+Lemma nlfree_dead r : nlfreeb r = true -> deriv 10%N r = RNone.
+Proof.
+  induction r as [| |neg rs|a IHa b IHb|a IHa b IHb|a IHa]; intros H; cbn [deriv nlfreeb] in *; try reflexivity.
+  - apply negb_true_iff in H. rewrite H. reflexivity.
+  - apply andb_prop in H. destruct H as [Ha Hb]. rewrite (IHa Ha). cbn [cat].
+    destruct (nullable a); [rewrite (IHb Hb); reflexivity|reflexivity].
+  - apply andb_prop in H. destruct H as [Ha Hb]. rewrite (IHa Ha), (IHb Hb). reflexivity.
+  - rewrite (IHa H). reflexivity.
+Qed.
+
+(* the pattern of the line break itself *)
+Definition NLset : re := RSet false [(10%N, 10%N)].
+Definition is_nlset (r : re) : bool :=
+  match r with
+  | RSet false [(a, b)] => N.eqb a 10 && N.eqb b 10
+  | _ => false
+  end.
+
+Definition n1 (l : live) : bool := forallb (fun e => nlfreeb (snd e)) l.
+Definition n0 (l : live) : bool := forallb (fun e => nlfreeb (snd e) || is_nlset (snd e)) l.
+
+Lemma is_nlset_deriv c r : is_nlset r = true -> nlfreeb (deriv c r) = true.
+Proof.
+  destruct r as [| |neg rs| | |]; try discriminate. destruct neg; try discriminate.
+  destruct rs as [|[a b] rs]; try discriminate. destruct rs; try discriminate.
+  intros _. cbn [deriv]. destruct (set_mem false [(a, b)] c); reflexivity.
+Qed.
+
+Lemma n1_app l1 l2 : n1 (l1 ++ l2) = n1 l1 && n1 l2.
+Proof. unfold n1. apply forallb_app. Qed.
+
+Lemma n1_step c l : n1 l = true -> n1 (step_live c l) = true.
+Proof.
+  induction l as [|[p r] l IH]; intros H; [reflexivity|]. cbn [n1 forallb snd] in H. apply andb_prop in H.
+  destruct H as [Hr Hl]. change ((p, r) :: l) with ([(p, r)] ++ l). rewrite step_live_app, n1_app, (IH Hl), andb_true_r.
+  unfold step_live. cbn [flat_map fst snd app]. pose proof (nlfree_deriv c r Hr) as Hd.
+  rewrite app_nil_r. destruct (is_none (deriv c r)); unfold n1; cbn [forallb snd]; [reflexivity|rewrite Hd; reflexivity].
+Qed.
+
+Lemma n0_step c l : n0 l = true -> n1 (step_live c l) = true.
+Proof.
+  induction l as [|[p r] l IH]; intros H; [reflexivity|]. cbn [n0 forallb snd] in H. apply andb_prop in H.
+  destruct H as [Hr Hl]. change ((p, r) :: l) with ([(p, r)] ++ l). rewrite step_live_app, n1_app, (IH Hl), andb_true_r.
+  unfold step_live. cbn [flat_map fst snd app].
+  assert (Hd : nlfreeb (deriv c r) = true).
+  { apply orb_prop in Hr. destruct Hr as [Hr|Hr]; [apply nlfree_deriv; exact Hr|apply is_nlset_deriv; exact Hr]. }
+  rewrite app_nil_r. destruct (is_none (deriv c r)); unfold n1; cbn [forallb snd]; [reflexivity|rewrite Hd; reflexivity].
+Qed.
+
+Lemma n1_dead10 l : n1 l = true -> step_live 10%N l = [].
+Proof.
+  induction l as [|[p r] l IH]; intros H; [reflexivity|]. cbn [n1 forallb snd] in H. apply andb_prop in H.
+  destruct H as [Hr Hl]. unfold step_live in *. cbn [flat_map fst snd]. rewrite (nlfree_dead r Hr). cbn [is_none app].
+  apply IH. exact Hl.
+Qed.
+
+(* after the line-break character itself nothing goes on *)
+Lemma n0_after10 l c : n0 l = true -> step_live c (step_live 10%N l) = [].
+Proof.
+  induction l as [|[p r] l IH]; intros H; [reflexivity|]. cbn [n0 forallb snd] in H. apply andb_prop in H.
+  destruct H as [Hr Hl]. change ((p, r) :: l) with ([(p, r)] ++ l). rewrite !step_live_app, (IH Hl), app_nil_r.
+  apply orb_prop in Hr. destruct Hr as [Hr|Hr].
+  - unfold step_live at 2. cbn [flat_map fst snd app]. rewrite (nlfree_dead r Hr). reflexivity.
+  - destruct r as [| |neg rs| | |]; try discriminate. destruct neg; try discriminate.
+    destruct rs as [|[a b] rs]; try discriminate. destruct rs; try discriminate.
+    cbn [is_nlset] in Hr. apply andb_prop in Hr. destruct Hr as [Ha Hb]. apply N.eqb_eq in Ha. apply N.eqb_eq in Hb. subst a b.
+    reflexivity.
+Qed.
+
+Lemma scan_state_app a : forall rest l n best viable,
+  scan_state l (a ++ rest) n best viable =
+  match scan_state l a n best viable with
+  | Done b v => Done b v
+  | Alive l' n' b' v' => scan_state l' rest n' b' v'
+  end.
+Proof.
+  induction a as [|c a IH]; intros rest l n best viable; [reflexivity|].
+  cbn [app scan_state]. destruct (step_live c l) as [|x l'] eqn:E; [reflexivity|]. apply IH.
+Qed.
+
+(* ------------------------------------------------------------------------------------------- *)
 (* a table whose patterns are white-space free except one string, one comment and one white-space pattern of the
    shapes above (checked by computation for the regenerated table, see Props/C14.v) *)
 
@@ -1064,5 +1171,224 @@ Qed.
 Theorem crlf_same s : forallb nl_alone (raw_lex (length s) t s) = true ->
   kinds (lex t (crlf s)) = kinds (lex t s).
 Proof. intros H. rewrite !kinds_ckinds. f_equal. apply crlf_same_c. exact H. Qed.
+
+(* ------------------------------------------------------------------------------------------- *)
+(* a blank line: the line-break character inserted right after a line-break token (or at the very start) *)
+
+Variable pN : pat.
+Hypothesis H_n0 : n0 E1 = true /\ n0 E2 = true.
+Hypothesis H_N : best_nullable (step_live 10 E1 ++ step_live 10 E2) None = Some pN /\
+                 p_cb pN = CbUnit /\ p_kind pN = "Newline"%string.
+
+Definition LN : live := step_live 10 E1 ++ step_live 10 E2.
+
+Lemma step_L0_10 : step_live 10 (start_live t) = LN.
+Proof.
+  rewrite step_L0. replace (10 =? 34)%N with false by reflexivity. replace (10 =? 47)%N with false by reflexivity.
+  replace (is_ws_char 10) with false by reflexivity. cbn [app]. rewrite app_nil_r. reflexivity.
+Qed.
+
+Lemma LN_dead c : step_live c LN = [].
+Proof. unfold LN. rewrite step_live_app, (n0_after10 E1 c (proj1 H_n0)), (n0_after10 E2 c (proj2 H_n0)). reflexivity. Qed.
+
+Lemma LN_ne : LN <> [].
+Proof. intros E. destruct H_N as [X _]. fold LN in X. rewrite E in X. discriminate X. Qed.
+
+Lemma scan_dead_all l rest n b v : (forall c, step_live c l = []) -> scan l rest n b v = (b, v).
+Proof. intros D. destruct rest as [|c rest]; [reflexivity|]. cbn [scan]. rewrite (D c). reflexivity. Qed.
+
+Definition rN : rtoken := mkR (KTok "Newline"%string PNone) [10%N].
+
+Lemma next_raw_10 y : next_raw t (10%N :: y) = rN.
+Proof.
+  unfold next_raw. cbn [scan]. rewrite step_L0_10. pose proof LN_ne as Ne. destruct H_N as (Hb & Hcb & Hk). fold LN in Hb.
+  destruct LN as [|e l'] eqn:E; [congruence|]. rewrite Hb. rewrite <- E.
+  rewrite (scan_dead_all LN y 1 (Some (1, pN)) 1 LN_dead). rewrite Hcb. cbn [run_callback firstn]. rewrite Hk. reflexivity.
+Qed.
+
+Inductive cn : live -> Prop :=
+| cn_n l : n1 l = true -> cn l
+| cn_S : cn LS
+| cn_1 : cn L1
+| cn_C : cn LC
+| cn_W : cn LW.
+
+Lemma n1_A1 : n1 A1 = true.
+Proof. unfold A1. rewrite n1_app, (n0_step 47 E1 (proj1 H_n0)), (n0_step 47 E2 (proj2 H_n0)). reflexivity. Qed.
+
+Lemma cn_first c : cn (step_live c (start_live t)).
+Proof.
+  rewrite step_L0.
+  destruct (N.eqb_spec c 34) as [->|N34].
+  { destruct H_34 as [-> ->]. replace (34 =? 47)%N with false by reflexivity. replace (is_ws_char 34) with false by reflexivity.
+    cbn [app]. apply cn_S. }
+  destruct (N.eqb_spec c 47) as [->|N47].
+  { replace (is_ws_char 47) with false by reflexivity. cbn [app]. rewrite app_assoc. apply cn_1. }
+  destruct (is_ws_char c) eqn:Ew.
+  { rewrite (allw_ws_dead c E1 Ew H_E1), (allw_ws_dead c E2 Ew H_E2). cbn [app]. apply cn_W. }
+  cbn [app]. rewrite app_nil_r. apply cn_n. rewrite n1_app, (n0_step c E1 (proj1 H_n0)), (n0_step c E2 (proj2 H_n0)). reflexivity.
+Qed.
+
+Lemma cn_step c l : cn l -> cn (step_live c l).
+Proof.
+  intros [l' H| | | |].
+  - apply cn_n. apply n1_step. exact H.
+  - rewrite step_LS. destruct (c =? 34)%N; [apply cn_n; reflexivity|apply cn_S].
+  - rewrite step_L1. destruct (c =? 47)%N eqn:E47.
+    + apply N.eqb_eq in E47. subst c. replace (step_live 47 A1) with (@nil (pat * re)) by (symmetry; exact H_47). apply cn_C.
+    + rewrite app_nil_r. apply cn_n. apply n1_step. apply n1_A1.
+  - rewrite step_LC. destruct (c =? 10)%N; [apply cn_n; reflexivity|apply cn_C].
+  - rewrite step_LW. destruct (is_ws_char c); [apply cn_W|apply cn_n; reflexivity].
+Qed.
+
+Lemma cn_10 l : cn l -> l = LS \/ step_live 10 l = [].
+Proof.
+  intros [l' H| | | |].
+  - right. apply n1_dead10. exact H.
+  - left. reflexivity.
+  - right. rewrite step_L1, (n1_dead10 A1 n1_A1). reflexivity.
+  - right. rewrite step_LC. reflexivity.
+  - right. rewrite step_LW. reflexivity.
+Qed.
+
+Lemma scan_state_cn : forall x l n b v, cn l ->
+  match scan_state l x n b v with Done _ _ => True | Alive l' _ _ _ => cn l' end.
+Proof.
+  induction x as [|c x IH]; intros l n b v Hc; [exact Hc|]. cbn [scan_state].
+  destruct (step_live c l) as [|e l'] eqn:E; [exact I|]. rewrite <- E. apply IH. apply cn_step. exact Hc.
+Qed.
+
+Lemma scan_state_start_cn c x :
+  match scan_state (start_live t) (c :: x) 0 None 0 with Done _ _ => True | Alive l' _ _ _ => cn l' end.
+Proof.
+  cbn [scan_state]. destruct (step_live c (start_live t)) as [|e l'] eqn:E; [exact I|]. rewrite <- E.
+  apply scan_state_cn. apply cn_first.
+Qed.
+
+(* after a prefix that ends with a line break: the scan has stopped, or cannot go on, or is inside a string *)
+Lemma after10 X0 :
+  match scan_state (start_live t) (X0 ++ [10%N]) 0 None 0 with
+  | Done _ _ => True
+  | Alive l _ _ _ => l = LS \/ (forall c, step_live c l = [])
+  end.
+Proof.
+  destruct X0 as [|c x0].
+  - cbn [app scan_state]. rewrite step_L0_10. pose proof LN_ne as Ne. destruct LN as [|e l'] eqn:E; [congruence|].
+    rewrite <- E. cbn [scan_state]. right. apply LN_dead.
+  - change ((c :: x0) ++ [10%N]) with ((c :: x0) ++ [10%N]). rewrite scan_state_app.
+    pose proof (scan_state_start_cn c x0) as Hc.
+    destruct (scan_state (start_live t) (c :: x0) 0 None 0) as [b v|l n b v]; [exact I|].
+    cbn [scan_state]. destruct (cn_10 l Hc) as [->|D].
+    + rewrite step_LS. replace (10 =? 34)%N with false by reflexivity. unfold LS at 1. left. reflexivity.
+    + rewrite D. exact I.
+Qed.
+
+Definition ends10 (rs : list rtoken) : Prop :=
+  match rs with [] => True | _ => r_text (last rs rN) = [10%N] end.
+
+Lemma concat_ends10 rs : rs <> [] -> ends10 rs -> exists X0, concat (map r_text rs) = X0 ++ [10%N].
+Proof.
+  induction rs as [|r rs IH]; intros Ne H; [congruence|]. destruct rs as [|r2 rs].
+  - cbn in H. exists []. cbn [map concat app]. rewrite app_nil_r. exact H.
+  - destruct (IH ltac:(discriminate) H) as (X0 & E). exists (r_text r ++ X0). cbn [map concat] in *. rewrite E, app_assoc. reflexivity.
+Qed.
+
+Theorem nl_insert_raw : forall rs1 s1 s2, concat (map r_text rs1) = s1 ->
+  raw_lex (length (s1 ++ s2)) t (s1 ++ s2) = rs1 ++ raw_lex (length s2) t s2 -> ends10 rs1 ->
+  raw_lex (length (s1 ++ 10%N :: s2)) t (s1 ++ 10%N :: s2) = rs1 ++ rN :: raw_lex (length s2) t s2.
+Proof.
+  induction rs1 as [|r rs' IH]; intros s1 s2 Hc H He.
+  { cbn [map concat] in Hc. subst s1. cbn [app].
+    apply (raw_lex_step [10%N] s2 rN ltac:(discriminate) (next_raw_10 s2) eq_refl). }
+  cbn [map concat] in Hc. set (x := r_text r) in *. set (s1' := concat (map r_text rs')) in *.
+  assert (Es : s1 ++ s2 = x ++ s1' ++ s2) by (subst s1; rewrite app_assoc; reflexivity).
+  assert (Hr : next_raw t (x ++ s1' ++ s2) = r /\ x <> [] /\
+               raw_lex (length (s1' ++ s2)) t (s1' ++ s2) = rs' ++ raw_lex (length s2) t s2).
+  { rewrite <- Es. destruct (s1 ++ s2) as [|c rest] eqn:E0; [discriminate H|].
+    cbn [length raw_lex app] in H. injection H as Hr Ht.
+    pose proof (next_raw_nonempty (c :: rest) ltac:(discriminate)) as Hx. rewrite Hr in Hx. fold x in Hx.
+    split; [exact Hr|split; [exact Hx|]]. rewrite Hr in Ht. fold x in Ht. rewrite Es in Ht. rewrite skipn_app_len in Ht.
+    rewrite <- Ht. symmetry. apply raw_lex_fuel.
+    assert (length (c :: rest) = length (x ++ s1' ++ s2)) by (rewrite Es; reflexivity).
+    rewrite app_length in H. cbn [length] in H. destruct x; [congruence|cbn [length] in H; lia]. }
+  destruct Hr as (Hr & Hx & Ht).
+  assert (Hl : tlen (scan (start_live t) (x ++ s1' ++ s2) 0 None 0) = length x).
+  { rewrite <- text_len by (destruct x; [congruence|discriminate]). rewrite Hr. reflexivity. }
+  destruct (concat_ends10 (r :: rs') ltac:(discriminate) He) as (X0 & EX). cbn [map concat] in EX. fold x s1' in EX.
+  assert (He' : ends10 rs') by (destruct rs' as [|r2 rs2]; [exact I|exact He]).
+  assert (Hr' : next_raw t (x ++ s1' ++ 10%N :: s2) = r).
+  { rewrite next_raw_build in *. rewrite <- Hr.
+    assert (Sc : scan (start_live t) (x ++ s1' ++ 10%N :: s2) 0 None 0 = scan (start_live t) (x ++ s1' ++ s2) 0 None 0).
+    { rewrite !app_assoc, EX. rewrite (scan_app (X0 ++ [10%N]) (10%N :: s2)), (scan_app (X0 ++ [10%N]) s2).
+      pose proof (after10 X0) as A10.
+      destruct (scan_state (start_live t) (X0 ++ [10%N]) 0 None 0) as [b v|l n b v] eqn:St; [reflexivity|].
+      destruct A10 as [->|D]; [|rewrite !(scan_dead_all l _ n b v D); reflexivity].
+      exfalso.
+      (* inside a string: the token would not end where it does *)
+      assert (Hl2 : tlen (scan LS s2 n b v) = length x).
+      { rewrite <- Hl. rewrite !app_assoc, EX, (scan_app (X0 ++ [10%N]) s2), St. reflexivity. }
+      destruct x as [|c0 x0] eqn:Ex; [congruence|].
+      assert (EX' : X0 ++ [10%N] = c0 :: (x0 ++ s1')) by (rewrite <- EX; reflexivity).
+      pose proof (scan_state_start c0 (x0 ++ s1')) as S1. pose proof (scan_state_start_LS c0 (x0 ++ s1')) as S2.
+      rewrite <- EX', St in S1, S2. destruct S1 as (_ & _ & -> & Hn). specialize (S2 eq_refl). subst b.
+      destruct (scan_mono s2 LS n None n) as [Mv Mb].
+      assert (Ln : n = length (c0 :: x0) + length s1') by (rewrite Hn, app_length; cbn [length]; lia).
+      destruct (scan LS s2 n None n) as [bo vo]. cbn [fst snd] in *.
+      assert (Lx : length s1' = 0).
+      { destruct Mb as [->|(m & p & -> & Hm)]; cbn [tlen] in Hl2; [destruct Mv as [->|Mv]|]; lia. }
+      assert (Es1 : s1' = []) by (destruct s1'; [reflexivity|discriminate Lx]).
+      assert (Ers : rs' = []).
+      { rewrite Es1 in Ht. cbn [app] in Ht. destruct rs' as [|r2 rs2]; [reflexivity|]. exfalso.
+        apply (f_equal (@length rtoken)) in Ht. rewrite app_length in Ht. cbn [length] in Ht. lia. }
+      subst rs'. cbn [ends10 last] in He. fold x in He. rewrite Ex in He. injection He as -> ->.
+      rewrite Es1 in EX'. cbn [app] in EX'. destruct X0 as [|y0 X0]; [|destruct X0; discriminate EX'].
+      cbn [app scan_state] in St. rewrite step_L0_10 in St. pose proof LN_ne as Ne.
+      destruct LN as [|e l'] eqn:EN; [congruence|]. rewrite <- EN in St. cbn [scan_state] in St. injection St as ELS _ _ _.
+      pose proof (LN_dead 32) as D32. rewrite ELS, (ws_LS 32 eq_refl) in D32. discriminate D32. }
+    rewrite Sc. apply build_ext; [reflexivity|reflexivity|].
+    rewrite Hl. rewrite !firstn_app_le by apply Nat.le_refl. reflexivity. }
+  replace (s1 ++ 10%N :: s2) with (x ++ s1' ++ 10%N :: s2) by (subst s1; rewrite app_assoc; reflexivity).
+  rewrite (raw_lex_step x (s1' ++ 10%N :: s2) r Hx Hr' eq_refl).
+  rewrite (IH s1' s2 eq_refl Ht He'). reflexivity.
+Qed.
+
+Lemma rks_app a b : rks (a ++ b) = rks a ++ rks b.
+Proof. induction a as [|r a IH]; [reflexivity|]. cbn [app rks]. destruct (rk r); [cbn [app]; f_equal|]; exact IH. Qed.
+
+(* on the kinds and payloads of all tokens: one more "Newline" *)
+Theorem nl_insert_c s1 s2 rs1 : concat (map r_text rs1) = s1 ->
+  raw_lex (length (s1 ++ s2)) t (s1 ++ s2) = rs1 ++ raw_lex (length s2) t s2 -> ends10 rs1 ->
+  ckinds (lex t (s1 ++ s2)) = rks rs1 ++ rks (raw_lex (length s2) t s2) /\
+  ckinds (lex t (s1 ++ 10%N :: s2)) = rks rs1 ++ ("Newline"%string, PNone) :: rks (raw_lex (length s2) t s2).
+Proof.
+  intros Hc H He. unfold lex. rewrite !ckinds_place, H, (nl_insert_raw rs1 s1 s2 Hc H He), !rks_app. split; reflexivity.
+Qed.
+
+(* the token before the inserted line break is the line-break token *)
+Lemma tiled_last : forall rs1 s1 s2, concat (map r_text rs1) = s1 ->
+  raw_lex (length (s1 ++ s2)) t (s1 ++ s2) = rs1 ++ raw_lex (length s2) t s2 -> ends10 rs1 ->
+  rs1 = [] \/ exists rs0, rs1 = rs0 ++ [rN].
+Proof.
+  induction rs1 as [|r rs' IH]; intros s1 s2 Hc H He; [left; reflexivity|right].
+  cbn [map concat] in Hc. set (x := r_text r) in *. set (s1' := concat (map r_text rs')) in *.
+  assert (Es : s1 ++ s2 = x ++ s1' ++ s2) by (subst s1; rewrite app_assoc; reflexivity).
+  assert (Hr : next_raw t (x ++ s1' ++ s2) = r /\ x <> [] /\
+               raw_lex (length (s1' ++ s2)) t (s1' ++ s2) = rs' ++ raw_lex (length s2) t s2).
+  { rewrite <- Es. destruct (s1 ++ s2) as [|c rest] eqn:E0; [discriminate H|].
+    cbn [length raw_lex app] in H. injection H as Hr Ht.
+    pose proof (next_raw_nonempty (c :: rest) ltac:(discriminate)) as Hx. rewrite Hr in Hx. fold x in Hx.
+    split; [exact Hr|split; [exact Hx|]]. rewrite Hr in Ht. fold x in Ht. rewrite Es in Ht. rewrite skipn_app_len in Ht.
+    rewrite <- Ht. symmetry. apply raw_lex_fuel.
+    assert (length (c :: rest) = length (x ++ s1' ++ s2)) by (rewrite Es; reflexivity).
+    rewrite app_length in H. cbn [length] in H. destruct x; [congruence|cbn [length] in H; lia]. }
+  destruct Hr as (Hr & Hx & Ht).
+  destruct rs' as [|r2 rs2].
+  - exists []. cbn [app]. f_equal. cbn [ends10 last] in He. fold x in He. rewrite He in Hr. cbn [map concat app] in Hr.
+    rewrite <- Hr. apply next_raw_10.
+  - destruct (IH s1' s2 eq_refl Ht He) as [X|(rs0 & X)]; [discriminate X|]. exists (r :: rs0). rewrite X. reflexivity.
+Qed.
+
+Lemma rk_rN : rk rN = Some ("Newline"%string, PNone).
+Proof. reflexivity. Qed.
 
 End Table.
